@@ -81,6 +81,8 @@ def run(ctx):
         ok = f.qualname == wr.qualname
         c.ob("R1", ok, f, f"write-sink:{norm(x.func)[-30:]}", "output is written only by _write_output_files" if ok else
              f"{f.short} writes a file ('{stmt_text(x)}') outside _write_output_files: it bypasses the verify-before-write gate", x)
+    # ---- R11 the logic-name walker visits every bucket of every state, whatever its kind ---------------------------------------
+    shared.walker_kind_blind(ctx, "R11", p.module("cli.extractor").functions["_traverse_and_extract"], "action / guard / service names")
     # ---- R2 verification dominates every write ------------------------------------------------
     g = cfg_of(wf.node)
     vcalls = [s for s in res.callsites(wf, None) if any(t.qualname == vr.qualname for t in s.targets)]
